@@ -46,10 +46,10 @@ Theorem C03_faces_cert_sound : forall nodes vn faces nodes1 tn td, (0 < td)%Z ->
       exists pt, nth_error nodes ia = Some pt /\
         pclose (IZR tn / IZR td) (p2r 2 pt) (rlerp (s2r 2 s) (rvertex f) (rvertex (S f mod 3))).
 Proof. exact faces_ok_sound_b2. Qed.
-Theorem C03_nodes1d_cert_sound : forall p xs cs tn td, (0 < td)%Z -> nodes1d_ok 2 p xs cs tn td = true ->
+Theorem C03_nodes1d_cert_sound : forall p xs tn td, (0 < td)%Z -> nodes1d_ok 2 p xs tn td = true ->
   length xs = S p /\ s2r 2 (hd (1, 0)%Z xs) = 0 /\ s2r 2 (last xs (0, 0)%Z) = 1 /\
   (forall a x y, nth_error xs a = Some x -> nth_error xs (S a) = Some y -> s2r 2 x < s2r 2 y) /\
-  (forall x, In x (interior xs) -> Rabs (rpoly cs (s2r 2 x)) <= IZR tn / IZR td).
+  (forall a x y, nth_error xs a = Some x -> nth_error (rev xs) a = Some y -> Rabs (s2r 2 x + s2r 2 y - 1) <= IZR tn / IZR td).
 Proof. exact nodes1d_ok_sound_b2. Qed.
 
 (* ---- layer 3: every affine element, every mesh *)
